@@ -130,6 +130,10 @@ def listing(odir):
     return out
 
 
+def _small(e):
+    return {k: v for k, v in e.items() if k != "second_events"}
+
+
 def exc_name(err):
     m = re.findall(r"^([A-Za-z_][\w.]*(?:Error|Exception|Interrupt|Exit))\b", err or "", re.M)
     return m[-1].split(".")[-1] if m else "?"
@@ -158,12 +162,32 @@ def run_case(ck, i, workload, cmp_keys, keyfn, nontrivial_fn, timeout=900):
             if rc == 0:
                 raise Skip("crash point not reached (child finished)")
             ck.violation(keyfn("run-raises:" + exc_name(err), e, ref["cfg"], ref["events"]),
-                         f"child failed before the crash point rc={rc}: {err[-300:]}", event=e)
+                         f"child failed before the crash point rc={rc}: {err[-300:]}", event=_small(e))
             return
         ck.hit("crash_children_killed")
         left = listing(odir)
         if e.get("second"):
             s = e["second"]
+            # recording probe of the resumed run on a copy of the directory: gives the event list in
+            # which the second crash index is defined (needed to attribute the outcome to a window)
+            probe = os.path.join(wd, "probe_odir")
+            if os.path.isdir(odir):
+                shutil.copytree(odir, probe)
+            specp = dict(workload=workload, params=dict(ref["cfg"], resume=True), odir=probe, mode="record")
+            rcp, resp, errp = D.run_child(specp, "probe", wd, timeout=timeout)
+            shutil.rmtree(probe, ignore_errors=True)
+            e = dict(e)
+            if rcp == 0 and resp is not None and s["idx"] < len(resp["events"]):
+                ev2 = resp["events"]
+                e["second_events"] = ev2
+                e["second_event"] = dict(idx=s["idx"], phase=s["phase"], kind=ev2[s["idx"]]["kind"],
+                                         path=ev2[s["idx"]]["path"])
+                ck.hit("second_crash_probes")
+            elif rcp != 0 and rcp != "timeout":
+                ck.violation(keyfn("resume-raises:" + exc_name(errp), e, ref["cfg"], ref["events"]),
+                             f"resumed run after the first crash failed: {errp.strip().splitlines()[-1][:200] if errp.strip() else rcp}",
+                             event=_small(e), files_left=left, stderr=errp[-1200:])
+                return
             spec2 = dict(workload=workload, params=dict(ref["cfg"], resume=True), odir=odir, mode="crash",
                          kill_index=s["idx"], phase=s["phase"])
             rc2, _, err2 = D.run_child(spec2, "crash2", wd, timeout=timeout)
@@ -173,7 +197,7 @@ def run_case(ck, i, workload, cmp_keys, keyfn, nontrivial_fn, timeout=900):
                 ck.hit("second_crashes_killed")
             elif rc2 != 0:
                 ck.violation(keyfn("resume-raises:" + exc_name(err2), e, ref["cfg"], ref["events"]),
-                             f"resumed run (to be crashed again) failed: {err2[-300:]}", event=e, files_left=left)
+                             f"resumed run (to be crashed again) failed: {err2[-300:]}", event=_small(e), files_left=left)
                 return
         spec3 = dict(workload=workload, params=dict(ref["cfg"], resume=True), odir=odir, mode="plain")
         rc3, res3, err3 = D.run_child(spec3, "resume", wd, timeout=timeout)
@@ -184,7 +208,7 @@ def run_case(ck, i, workload, cmp_keys, keyfn, nontrivial_fn, timeout=900):
             last = err3.strip().splitlines()[-1][:200] if err3.strip() else str(rc3)
             ck.violation(keyfn("resume-raises:" + exc_name(err3), e, ref["cfg"], ref["events"]),
                          f"after a kill at event {e['idx']} ({e['kind']} {e['path']}, phase {e['phase']}) the "
-                         f"run with resume=True fails: {last}", event=e, files_left=left, stderr=err3[-1200:])
+                         f"run with resume=True fails: {last}", event=_small(e), files_left=left, stderr=err3[-1200:])
             return
         ck.hit("digest_comparisons", len(cmp_keys))
         diff = [k for k in cmp_keys if res3["result"].get(k) != ref["result"].get(k)]
@@ -192,7 +216,7 @@ def run_case(ck, i, workload, cmp_keys, keyfn, nontrivial_fn, timeout=900):
             ck.violation(keyfn("resume-differs", e, ref["cfg"], ref["events"]),
                          f"resumed run finished but {diff} differ from the uninterrupted run "
                          f"(kill at event {e['idx']}: {e['kind']} {e['path']}, {e['phase']})",
-                         event=e, files_left=left, got={k: res3["result"].get(k) for k in diff},
+                         event=_small(e), files_left=left, got={k: res3["result"].get(k) for k in diff},
                          want={k: ref["result"].get(k) for k in diff})
     finally:
         shutil.rmtree(wd, ignore_errors=True)
